@@ -233,24 +233,27 @@ def h_decompress(ctx):
               lambda v: None, timeout_s=600)
     for pi, p in enumerate(paths):
         q = p.value
-        claims = []
-        for largest in range(4):
-            guard = z3.LShR(comp, 30) == largest
-            c = comp
-            sub = []
-            ss = z3.FPVal(0.0, F64)
-            for i in (3, 2, 1, 0):
-                if i == largest:
-                    continue
-                v = ref_mag(z3.Extract(8, 0, c))
-                exp = z3.If(z3.Extract(9, 9, c) == 1, z3.fpNeg(v), v)
-                c = z3.LShR(c, 10)
-                sub.append(U.same_f64(q[i].t, exp))
-                ss = z3.fpAdd(RNE, ss, z3.fpMul(RNE, exp, exp))
-            sub.append(U.same_f64(q[largest].t, z3.fpSqrt(RNE, z3.fpSub(RNE, z3.FPVal(1.0, F64), ss))))
-            claims.append(z3.Implies(guard, z3.And(*sub)))
-        ctx.query(f'path {pi}: components follow the firmware layout', p.pc + [z3.Not(z3.And(*claims))], {'comp': comp},
-                  _decomp_check, timeout_s=ctx.B.get('query_timeout', 300))
+        s0 = z3.Solver()
+        s0.add(*p.pc)
+        assert s0.check() == z3.sat
+        largest = s0.model().eval(z3.LShR(comp, 30), model_completion=True).as_long()
+        ctx.query(f'path {pi}: index bits are {largest} on the whole path', p.pc + [z3.LShR(comp, 30) != largest], {'comp': comp},
+                  _decomp_check)
+        c = comp
+        ss = z3.FPVal(0.0, F64)
+        # one small query per slot (a differing slot is found quickly; identical terms are discharged by simplification)
+        for i in (3, 2, 1, 0):
+            if i == largest:
+                continue
+            v = ref_mag(z3.Extract(8, 0, c))
+            exp = z3.If(z3.Extract(9, 9, c) == 1, z3.fpNeg(v), v)
+            c = z3.LShR(c, 10)
+            ctx.query(f'path {pi}: component {i} is +-(mag/511/sqrt2) of its 10-bit group', p.pc + [z3.Not(U.same_f64(q[i].t, exp))],
+                      {'comp': comp}, _decomp_check, timeout_s=ctx.B.get('query_timeout', 300))
+            ss = z3.fpAdd(RNE, ss, z3.fpMul(RNE, exp, exp))
+        big = z3.fpSqrt(RNE, z3.fpSub(RNE, z3.FPVal(1.0, F64), ss))
+        ctx.query(f'path {pi}: largest component {largest} is +sqrt(1 - sum of squares)', p.pc + [z3.Not(U.same_f64(q[largest].t, big))],
+                  {'comp': comp}, _decomp_check, timeout_s=ctx.B.get('query_timeout', 300))
         ctx.goal('decoded')
     ctx.sample({'paths': len(paths)})
 
@@ -300,7 +303,9 @@ def h_compress(ctx):
     for q in qs:
         sq = z3.fpMul(RNE, q, q)
         ssq = sq if ssq is None else z3.fpAdd(RNE, ssq, sq)
-    dom += [z3.fpGEQ(ssq, z3.FPVal(1 - 1e-6, F64)), z3.fpLEQ(ssq, z3.FPVal(1 + 1e-6, F64))]
+    # the non-linear normalisation precondition is added to the claim queries only: exploring with the (weaker) range
+    # assumptions may visit a path that the precondition excludes, whose claims are then vacuously unsat
+    unit = [z3.fpGEQ(ssq, z3.FPVal(1 - 1e-6, F64)), z3.fpLEQ(ssq, z3.FPVal(1 + 1e-6, F64))]
     it = Interp(fn, globals_extra={'np': np}, timeout_ms=ctx.B.get('feas_timeout', 120) * 1000, options={'norm_is_one': True})
     paths = it.explore(lambda: [ListV(FloatV(q, -lim, lim) for q in qs)], assumptions=dom)
     inputs = {f'q{i}': qs[i] for i in range(4)}
@@ -343,7 +348,7 @@ def h_compress(ctx):
                 ctx.res['exhausted'] = False
                 continue
             nq -= 1
-            ctx.query(f'path {pi}: magnitude of component {i} <= 511', p.pc + [z3.Not(z3.And(mag >= 0, mag <= 511))], inputs,
+            ctx.query(f'path {pi}: magnitude of component {i} <= 511', p.pc + unit + [z3.Not(z3.And(mag >= 0, mag <= 511))], inputs,
                       _comp_check, timeout_s=ctx.B.get('query_timeout', 600))
         ctx.goal('compressed')
     ctx.sample({'paths': len(paths), 'feasibility_queries': it.queries, 'solver_s': round(it.solver_s, 1)})
